@@ -32,14 +32,22 @@ Theorem c19_search_cmd_exact : forall (tag cmd : str) (ks : list key) (mb : list
 Proof. exact search_cmd_exact. Qed.
 Print Assumptions c19_search_cmd_exact.
 
-(** UID SEARCH (a separate implementation) is exact on the two program shapes
-    it evaluates: ALL and UID a:b with a <= b *)
-Theorem c19_uid_search_exact_partial : forall (tag : str) (ks : list key) (mb : list smsg),
-  wf_prog ks = true -> classify_uid ks = None ->
-  handle_uid_search (tag :: S_ "UID" :: S_ "SEARCH" :: prog_tokens ks) (to_msgs mb) = ROk (spec_uid_search_list ks mb)
+(** UID SEARCH runs the same evaluator (fix "UID SEARCH runs the SEARCH
+    evaluator"): for every well-formed program outside the classes and every
+    mailbox it returns exactly the UIDs of the messages that satisfy all keys *)
+Theorem c19_uid_search_exact : forall (ks : list key) (mb : list smsg),
+  wf_prog ks = true -> mb_ok mb = true -> classify ks mb = None ->
+  uid_search (to_msgs mb) (print_prog ks) = Some (spec_uid_search_list ks mb)
   /\ spec_uid_search ks mb = SOk (spec_uid_search_list ks mb).
 Proof. exact uid_search_exact. Qed.
-Print Assumptions c19_uid_search_exact_partial.
+Print Assumptions c19_uid_search_exact.
+
+Theorem c19_uid_search_cmd_exact : forall (tag uid cmd : str) (ks : list key) (mb : list smsg),
+  wf_prog ks = true -> mb_ok mb = true -> classify_line ks mb = None ->
+  str_eqb (to_upper (nth 0 (fields (print_prog ks)) [])) (S_ "CHARSET") = false ->
+  uid_search_cmd (tag :: uid :: cmd :: fields (print_prog ks)) (to_msgs mb) = ROk (spec_uid_search_list ks mb).
+Proof. exact uid_search_cmd_exact. Qed.
+Print Assumptions c19_uid_search_cmd_exact.
 
 (** the tokenizer returns the tokens of a printed program unchanged *)
 Theorem c19_tokenizer_roundtrip : forall toks : list str,
@@ -55,8 +63,8 @@ Theorem c19_ascending_nodup : forall (T : text_ops) (parts : list str) (msgs : l
 Proof. exact search_ascending. Qed.
 Print Assumptions c19_ascending_nodup.
 
-Theorem c19_uid_ascending_nodup : forall (parts : list str) (msgs : list msg) (l : list Z),
-  StronglySorted Z.lt (map m_uid msgs) -> handle_uid_search parts msgs = ROk l ->
+Theorem c19_uid_ascending_nodup : forall (T : text_ops) (parts : list str) (msgs : list msg) (l : list Z),
+  StronglySorted Z.lt (map m_uid msgs) -> handle_uid_search T parts msgs = ROk l ->
   StronglySorted Z.lt l /\ NoDup l /\ incl l (map m_uid msgs).
 Proof. exact uid_search_ascending. Qed.
 Print Assumptions c19_uid_ascending_nodup.
@@ -69,6 +77,14 @@ Theorem c19_badcharset :
     handle_search T (tag :: cmd :: kwd :: cs :: rest) msgs = RNo.
 Proof. exact badcharset_no. Qed.
 Print Assumptions c19_badcharset.
+
+Theorem c19_uid_badcharset :
+  forall (T : text_ops) (tag uid cmd kwd cs : str) (rest : list str) (msgs : list msg),
+    to_upper kwd = S_ "CHARSET" ->
+    to_upper cs <> S_ "US-ASCII" -> to_upper cs <> S_ "UTF-8" ->
+    handle_uid_search T (tag :: uid :: cmd :: kwd :: cs :: rest) msgs = RNo.
+Proof. exact uid_badcharset_no. Qed.
+Print Assumptions c19_uid_badcharset.
 
 (** a supported charset is accepted and dropped *)
 Theorem c19_charset_dropped :
@@ -84,8 +100,8 @@ Print Assumptions c19_charset_dropped.
     panic any more (the model has no run-time failure left): the reply is
     always a result or an error. *)
 Theorem c19_never_panics : forall (T : text_ops) (parts : list str) (msgs : list msg),
-  handle_search T parts msgs <> RPanic.
-Proof. exact search_never_panics. Qed.
+  handle_search T parts msgs <> RPanic /\ handle_uid_search T parts msgs <> RPanic.
+Proof. intros T parts msgs. split; [apply search_never_panics | apply uid_search_never_panics]. Qed.
 Print Assumptions c19_never_panics.
 
 (** ** where raven violates the property: one witness per class *)
@@ -123,12 +139,16 @@ Print Assumptions c19_refuted_text_atom_sent_date.
 Theorem c19_refuted_quoted_space : exists ks mb, refutes CQuotedSpace ks mb.
 Proof. exact refuted_quoted_space. Qed.
 Print Assumptions c19_refuted_quoted_space.
-Theorem c19_refuted_uid_search_single : exists ks mb, refutes_uid CUidSingle ks mb.
-Proof. exact refuted_uid_search_single. Qed.
-Print Assumptions c19_refuted_uid_search_single.
-Theorem c19_refuted_uid_search_ignores_keys : exists ks mb, refutes_uid CUidIgnoresKeys ks mb.
-Proof. exact refuted_uid_search_ignores_keys. Qed.
-Print Assumptions c19_refuted_uid_search_ignores_keys.
+(** repaired by "UID SEARCH runs the SEARCH evaluator": the former witnesses of
+    uid_search_ignores_keys / uid_search_single meet the specification *)
+Example c19_uid_search_repaired :
+  uid_search_line [KUn FSeen] wit_mb = ROk [2; 3]
+  /\ reply_ok (uid_search_line [KUn FSeen] wit_mb) (spec_uid_search [KUn FSeen] wit_mb) = true
+  /\ uid_search_line [KUid [SOne (SNum (S_ "2"))]] wit_mb = ROk [2]
+  /\ reply_ok (uid_search_line [KUid [SOne (SNum (S_ "2"))]] wit_mb) (spec_uid_search [KUid [SOne (SNum (S_ "2"))]] wit_mb) = true
+  /\ uid_search_line [KNot (KHas FSeen); KHdr HFrom (S_ "bob")] wit_mb = ROk [2].
+Proof. exact uid_search_repaired. Qed.
+
 (** repaired by bb43d4f (guard before the second OR key): the former panic
     witness is answered "no match" ... *)
 Example c19_or_panic_repaired :
